@@ -19,10 +19,15 @@ type SubResult struct {
 	Steps      int             `json:"steps"`
 	Violations []drv.Violation `json:"violations"`
 	Digests    []string        `json:"digests,omitempty"`
+	Points     int             `json:"points,omitempty"`
 }
 
 // SubModes maps property id -> body executed inside a differently tagged build.
 var SubModes = map[string]func(args []string) *SubResult{}
+
+// extraOverlay is an overlay (produced by the rewriter, already merged with VERIF_OVERLAY)
+// to use for tagged sub-builds; keyed by tag string.
+var extraOverlay = map[string]string{}
 
 // BuildTagged builds the check binary with the given build tags (comma separated) and returns its path.
 func BuildTagged(tags string) (string, error) {
@@ -33,8 +38,12 @@ func BuildTagged(tags string) (string, error) {
 	out := "/verif/.work/bin/" + name
 	args := []string{"build", "-tags", tags}
 	if ov := os.Getenv("VERIF_OVERLAY"); ov != "" {
-		// mutation testing: build against a patched copy of the sources
 		out += "_ov"
+	}
+	if ov, ok := extraOverlay[tags]; ok {
+		args = append(args, "-overlay", ov)
+	} else if ov := os.Getenv("VERIF_OVERLAY"); ov != "" {
+		// mutation testing: build against a patched copy of the sources
 		args = append(args, "-overlay", ov)
 	}
 	args = append(args, "-o", out, "./cmd/check")
@@ -47,12 +56,29 @@ func BuildTagged(tags string) (string, error) {
 	return out, nil
 }
 
+// RunSubPrebuilt is RunSub without the build step (the binary was built by BuildTagged before).
+func RunSubPrebuilt(id, tags string, args ...string) (*SubResult, error) {
+	name := "check"
+	if tags != "" {
+		name += "_" + strings.ReplaceAll(tags, ",", "_")
+	}
+	bin := "/verif/.work/bin/" + name
+	if os.Getenv("VERIF_OVERLAY") != "" {
+		bin += "_ov"
+	}
+	return runSubBin(bin, id, tags, args...)
+}
+
 // RunSub runs `check --sub id args...` in the build with the given tags.
 func RunSub(id, tags string, args ...string) (*SubResult, error) {
 	bin, err := BuildTagged(tags)
 	if err != nil {
 		return nil, err
 	}
+	return runSubBin(bin, id, tags, args...)
+}
+
+func runSubBin(bin, id, tags string, args ...string) (*SubResult, error) {
 	cmd := exec.Command(bin, append([]string{"--sub", id}, args...)...)
 	var stdout, stderr bytes.Buffer
 	cmd.Stdout, cmd.Stderr = &stdout, &stderr
